@@ -190,6 +190,8 @@ def _ev(db, n, env):
             return _fold(db, g["init"])
         raise ValueError("unknown member " + nm)
     if k == "ref":
+        if n.get("dk") == "enumc":
+            return int(n["v"])
         if n["n"] in env:
             return env[n["n"]]
         g = db.globals.get(n["n"])
@@ -208,11 +210,18 @@ def _ev(db, n, env):
         if op == ">>": return a >> b
         if op == "&": return a & b
         if op == "|": return a | b
+        if op == "^": return a ^ b
+        if op == "&&": return int(bool(a) and bool(b))
+        if op == "||": return int(bool(a) or bool(b))
         if op == "==": return int(a == b)
         if op == "!=": return int(a != b)
         raise ValueError("operator " + op)
     if k == "un" and n.get("op") == "-":
         return -_ev(db, n["e"], env)
+    if k == "un" and n.get("op") == "~":
+        return ~_ev(db, n["e"], env)
+    if k == "un" and n.get("op") == "!":
+        return int(not _ev(db, n["e"], env))
     if k == "cond":
         return _ev(db, n["x"], env) if _ev(db, n["c"], env) else _ev(db, n["y"], env)
     raise ValueError("node " + str(k))
